@@ -2,7 +2,7 @@
    Model: Db/DbModel.v (every public function of parsing/sqlite.py as a tree of statements, with_connection as one transaction,
    fault = statement number k raises IntegrityError / InterfaceError / OperationalError or the process dies there; death around commit). *)
 From Coq Require Import ZArith List Bool.
-From PG Require Import Db.DbModel Db.DbAtomic.
+From PG Require Import Db.DbModel Db.DbAtomic Db.DbInv.
 Import ListNotations.
 Open Scope Z_scope.
 
@@ -53,3 +53,27 @@ Theorem retry_after_rolled_back_autoinsert_refuted :
   /\ oc_of (run_op (IsoUp wit_iso true true) (db_of x) (snd (fst x))) = OParsing.
 Proof. exact DbAtomic.retry_after_rolled_back_autoinsert_refuted. Qed.
 Print Assumptions retry_after_rolled_back_autoinsert_refuted.
+
+(* ---- no orphans (Db/DbInv.v): "never an isotherm without its data or properties ... or properties of a deleted item".  The invariant
+   wf (unique keys + every property row has its owner and type, every isotherm its material / adsorbate / type, every isotherm property and
+   data row its isotherm) holds for a fresh file and is preserved by EVERY statement program run under with_connection - whatever statement
+   fails with whatever error, wherever the process dies, before or after commit - hence by every public operation and every history *)
+Theorem with_connection_preserves_well_formedness : forall (p : prog ret) flt cf d r, wfprog p -> wf d -> wf (DbInv.db_after (with_conn flt cf p d r)).
+Proof. exact with_conn_wf. Qed.
+Print Assumptions with_connection_preserves_well_formedness.
+Theorem every_public_function_is_built_from_constraint_preserving_statements : forall o, wfprog (body o).
+Proof. exact wfprog_body. Qed.
+Print Assumptions every_public_function_is_built_from_constraint_preserving_statements.
+Theorem faulted_call_preserves_well_formedness : forall o flt cf d r, wf d -> wf (DbInv.db_after (with_conn flt cf (body o) d r)).
+Proof. exact faulted_op_wf. Qed.
+Print Assumptions faulted_call_preserves_well_formedness.
+Theorem well_formed_has_no_orphans : forall d, wf d -> no_orphans d.
+Proof. exact wf_no_orphans. Qed.
+Print Assumptions well_formed_has_no_orphans.
+(* any history of calls on a fresh file, each with its own fault and crash point, the registries of each (possibly new) process arbitrary *)
+Theorem faulty_history_preserves_well_formedness : forall h d regs, wf d -> wf (run_faulty d regs h).
+Proof. exact faulty_history_wf. Qed.
+Print Assumptions faulty_history_preserves_well_formedness.
+Theorem no_orphans_after_any_faulty_history : forall h regs, no_orphans (run_faulty empty_db regs h).
+Proof. exact faulty_history_no_orphans. Qed.
+Print Assumptions no_orphans_after_any_faulty_history.
